@@ -23,7 +23,15 @@ def relpath(m, layout):
     return modname(m, layout).replace('.', '/') + '.py'
 
 
-def content(m, ver, lk, layout, back=False):
+def content(m, ver, lk, layout, back=False, pad=False):
+    text = _content(m, ver, lk, layout, back)
+    if pad:
+        # every version of every module has the same size on disk: a rewrite changes content and mtime only
+        text += '#' + 'x' * (700 - len(text) - 2) + '\n'
+    return text
+
+
+def _content(m, ver, lk, layout, back=False):
     """module m at version ver; back: the last module star-imports the first one (an import cycle)"""
     n = NAMES[m]
     lines = ['# %s version %d' % (n, ver)]
@@ -180,7 +188,7 @@ def run_job(job, root):
     def write(m, ver):
         p = os.path.join(root, relpath(m, layout))
         with open(p, 'w') as fd:
-            fd.write(content(m, ver, lk, layout, job.get('back', False)))
+            fd.write(content(m, ver, lk, layout, job.get('back', False), job.get('pad', False)))
         touch(m)
         disk[m] = ver
 
